@@ -2,6 +2,7 @@
 package c17
 
 import (
+	"crypto/sha256"
 	"encoding/json"
 	"fmt"
 	"os"
@@ -50,11 +51,20 @@ var specPool = []string{
 	"grammar b7",
 	"grammar b8;\nstart = ;\nx = ;\n",
 	"grammar b9;\nstart = ( \"a\" \"b\" ) ( \"c\" \"d\" ) ( \"e\" \"f\" ) ( \"g\" \"h\" );\n",
+	// the same text once as a string literal and once as a pattern, in different specifications
+	"grammar c1;\nID = /[a-z]+/\nstart = ID \".\" ID;\n",
+	"grammar c2;\nANY = /./\nstart = ANY \"!\" ;\n",
+	"grammar c3;\nAB = /a*b/\nstart = AB;\n",
+	"grammar c4;\nNUM = /[0-9]+/\nstart = NUM \"a*b\" NUM;\n",
+	"grammar c5;\nstart = \"[0-9]+\" \"a|b\" \"x?\";\n",
+	"grammar c6;\nP = /a|b/\nQ = /x?y/\nstart = P Q;\n",
+	"grammar c7;\nP = \"a|b\"\nstart = P;\n",
 }
 
 var patternPool = []string{
 	"a", "ab|c", "[a-f]+", "[^a-f]", "[0-9][0-9]*", `\d+(\.\d+)?`, "[[:alpha:]_][[:alnum:]_]*", "(a|b)*abb", "a{2,4}", "(ab){2}c", "x?y*z+", ".", `\w+`, `[\x41-\x5A\x00E9]`,
 	"(", "a{3,1}", "[z-a]", "", `\`, "a**", "[u-z]+", "[a-cx-z]", `"([^"\\]|\\.)*"`, "(a*b){2}", "[^0-9]+",
+	"[z-a", "(a{3,1}", "x{2,1})", "a|b", "x?", "a*b",
 }
 
 func specSignature(src string) string {
@@ -86,7 +96,7 @@ func specSignature(src string) string {
 					owners = append(owners, fmt.Sprintf("%s:%v", a, ss))
 				}
 				sort.Strings(owners)
-				fmt.Fprintf(&b, "dfa states=%d owners=%s\n", len(d.States()), strings.Join(owners, " "))
+				fmt.Fprintf(&b, "dfa states=%d owners=%s transitions=%x\n", len(d.States()), strings.Join(owners, " "), sha256.Sum256([]byte(d.String())))
 			}
 		}
 		g, err := east.Parse("pool.ebnf", strings.NewReader(src))
